@@ -96,24 +96,60 @@ def validate (b : Bundle.Bundle) : Bool :=
   | none => true
   | some u => b.exchanges.any (fun e => e.url = u)
 
-/-- what `gen-bundle -har` does after flag parsing (cmd/gen-bundle/main.go): `fromHar`, assemble the bundle, `Validate`
-    (unless `-ignoreErrors`), `WriteTo` the output file. `primary` / `manifest` are the `String()`s of the parsed flag values. -/
+/-- `Header.Set(key, value)` on the association list: `h[CanonicalMIMEHeaderKey(key)] = []string{value}` -/
+def hset : Headers → Bytes → Bytes → Headers
+  | [], k, v => [(k, [v])]
+  | p :: h, k, v => if p.1 = k then (k, [v]) :: h else p :: hset h k v
+
+/-- ASCII part of `unicode.IsSpace` (the model's domain for `-headerOverride` values is ASCII) -/
+def isSpaceByte (c : UInt8) : Bool := c == 32 || c == 9 || c == 10 || c == 11 || c == 12 || c == 13
+
+/-- `strings.TrimSpace` on ASCII -/
+def trimSpace (v : Bytes) : Bytes := ((v.dropWhile isSpaceByte).reverse.dropWhile isSpaceByte).reverse
+
+/-- `strings.SplitN(h, ":", 2)`: (chunks[0], chunks[1] if there is one) -/
+def splitColon : Bytes → Bytes × Option Bytes
+  | [] => ([], none)
+  | c :: rest => if c = 58 then ([], some rest) else
+    let (a, b) := splitColon rest
+    (c :: a, b)
+
+/-- one `-headerOverride` value applied to every exchange; `none` = `chunks[1]` indexes out of range (Go panics) when there is
+    no colon and at least one exchange -/
+def applyOverride (es : List Bundle.Exch) (h : Bytes) : Option (List Bundle.Exch) :=
+  match splitColon h with
+  | (_, none) => if es.isEmpty then some es else none
+  | (n, some v) => some (es.map fun e => { e with resp := { e.resp with headers := hset e.resp.headers (canonicalKey n) (trimSpace v) } })
+
+def applyOverrides : List Bytes → List Bundle.Exch → Option (List Bundle.Exch)
+  | [], es => some es
+  | h :: rest, es => match applyOverride es h with
+    | none => none
+    | some es' => applyOverrides rest es'
+
+/-- what `gen-bundle -har` does after flag parsing (cmd/gen-bundle/main.go): `fromHar`, assemble the bundle, apply the
+    `-headerOverride` values in order, `Validate` (unless `-ignoreErrors`), `WriteTo` the output file. `primary` / `manifest`
+    are the `String()`s of the parsed flag values. -/
 inductive GenResult where
   | failed                 -- log.Fatal: non-zero exit, nothing (useful) written
   | wrote (out : Bytes)    -- exit 0, the file holds `out`
   | panic
   deriving Repr, DecidableEq
 
-def genBundle (ver : Bundle.BVer) (primary manifest : Option Bytes) (ignoreErrors : Bool) (entries : List Entry) : GenResult :=
+def genBundle (ver : Bundle.BVer) (primary manifest : Option Bytes) (ignoreErrors : Bool) (overrides : List Bytes)
+    (entries : List Entry) : GenResult :=
   match fromHar entries with
   | none => .failed
-  | some es =>
-    let b : Bundle.Bundle := { version := ver, primaryURL := primary, exchanges := es, manifestURL := manifest, signatures := none }
-    if !ignoreErrors && !validate b then .failed
-    else match Bundle.write b with
-      | .ok (.ok out) => .wrote out
-      | .ok (.error _) => .failed
-      | .error => .failed
-      | .panic => .panic
+  | some es0 =>
+    match applyOverrides overrides es0 with
+    | none => .panic
+    | some es =>
+      let b : Bundle.Bundle := { version := ver, primaryURL := primary, exchanges := es, manifestURL := manifest, signatures := none }
+      if !ignoreErrors && !validate b then .failed
+      else match Bundle.write b with
+        | .ok (.ok out) => .wrote out
+        | .ok (.error _) => .failed
+        | .error => .failed
+        | .panic => .panic
 
 end WebPkg.HarWalk
